@@ -106,7 +106,12 @@ def check_order(ctx, fn, merged_call):
         n_uses += 1
         r = flow.resolve(n, at=st)
         txt = A.unparse(r)
-        aligned = ("argsort" in txt and ("np.concatenate(t)" in txt or "_t_bmjd" in txt)) or _presorted(fn, mstmt)
+        t_at_merge = flow.resolve(ast.Name(id="t", ctx=ast.Load()), at=mstmt)
+        aligned = _presorted(fn, mstmt)
+        if isinstance(r, ast.Subscript) and isinstance(r.slice, ast.Call) and A.last_attr(r.slice) == "argsort":
+            key_arr = r.slice.args[0] if r.slice.args and (A.call_name(r.slice) or "").startswith("np.") else (r.slice.func.value if isinstance(r.slice.func, ast.Attribute) else None)
+            if key_arr is not None and (canon(key_arr) == canon(t_at_merge) or canon(key_arr) in (canon(parse("all_data._t_bmjd")),)):
+                aligned = True
         what = "passed to %s with the merged data" % A.call_name(A.parent(n)) if isinstance(A.parent(n), ast.Call) else "returned next to the merged data"
         if aligned:
             ctx.ok(R, st, "ids %s are in the merged object's row order" % what, "re-aligned by the time argsort")
